@@ -855,9 +855,22 @@ func (s *PrintCtx) pcTryQuoteValue(val string) {
 		// s.pcAppendByte('"')
 		// s.appendEscapedJSONString(val)
 		// s.pcAppendByte('"')
+	} else if hasControlByte(val) {
+		// colored mode: never hand raw control bytes or escape sequences
+		// contained in a value to the terminal
+		s.appendQuotedString(val)
 	} else {
 		s.pcAppendStringValue(val)
 	}
+}
+
+func hasControlByte(s string) bool {
+	for i := 0; i < len(s); i++ {
+		if s[i] < 0x20 || s[i] == 0x7f {
+			return true
+		}
+	}
+	return false
 }
 
 func (s *PrintCtx) pcQuoteValue(val string) {
